@@ -438,7 +438,7 @@ def gen_manager_case(rng):
     case = {"data": data, "history": history, "followups": followups}
     # copy_expr_from
     mode = rng.choice(["same", "rebind_in", "rebind_in", "rebind_both"])
-    src_tasks = [[leaf("c", [f"t{k}"]), v] for k, v in defs.items()]
+    src_tasks = [[leaf("c", [f"t{k}"]), defs[k]] for k in sorted(defs)]    # t_k only reads t_j with j < k
     cp = {"name": "c", "overwrite": rng.random() < 0.5, "source_tasks": src_tasks}
     if mode == "same":
         cp["data"] = {"a": D(INPUT), "c": D({"z": 0})}
